@@ -218,7 +218,7 @@ fn sub_random(input: &[u8], st: &mut Stats) -> R {
     // typed values (for OpSwitch selectors)
     if !gen.typed_ids.is_empty() && cs.bool() {
         let t = gen.typed_ids[cs.below(gen.typed_ids.len())];
-        let vid = gen.fresh();
+        let vid = gen.fresh_cs(&mut cs);
         let p2 = Plan {
             opcode: 1,
             opname: "Undef",
@@ -250,6 +250,12 @@ fn sub_random(input: &[u8], st: &mut Stats) -> R {
     check_plan(&prelude, &p, st)
 }
 
+/// as `random`, with result ids (type ids, typed values) occasionally 0 / 0x7fffffff /
+/// 0x80000000 / 0xffffffff
+fn sub_edge_ids(input: &[u8], st: &mut Stats) -> R {
+    with_edge_ids(|| sub_random(input, st))
+}
+
 fn sub_sweep(input: &[u8], st: &mut Stats) -> R {
     let i = idx(input);
     let cases = sweep::cases();
@@ -279,6 +285,10 @@ pub const SUBS: &[Sub] = &[
         name: "random",
         f: sub_random,
     },
+    Sub {
+        name: "edge-ids",
+        f: sub_edge_ids,
+    },
 ];
 
 pub fn run(ctx: &Ctx) {
@@ -291,13 +301,14 @@ pub fn run(ctx: &Ctx) {
     run_regress(ctx, SUBS);
     drive_enum(ctx, &SUBS[0], sweep::cases().len() as u64);
     drive_random(ctx, &SUBS[1], ctx.n(30_000, 20_000_000), 256);
+    drive_random(ctx, &SUBS[2], ctx.n(15_000, 10_000_000), 256);
 }
 
 pub fn finish(ctx: &Ctx) -> i32 {
     crate::engine::finish(
         ctx,
         Finish {
-            rule: "cases: (a) complete sweep = every core opcode in minimal and maximal form, every enumerant of every operand kind, every single bit / pair of bits / all bits of every mask, every opcode embedded in OpSpecConstantOp (x3 fills each); (b) random grammar-directed plans over all 787 opcodes with a random int/float type prelude. Oracle: Instruction::assemble == words built from numeric values by the generator; parse_words/parse_bytes of header+prelude+words deliver an equal instruction; reference parser R1 accepts the same words. non-trivial = instruction with at least one operand or a result id; distinct = hash of the encoded words.",
+            rule: "cases: (a) complete sweep = every core opcode in minimal and maximal form, every enumerant of every operand kind, every single bit / pair of bits / all bits of every mask, every opcode embedded in OpSpecConstantOp (x3 fills each); (b) random grammar-directed plans over all 787 opcodes with a random int/float type prelude. (b') the same with result ids (type ids, typed values, selectors) drawn from the extreme values 0 / 0x7fffffff / 0x80000000 / 0xffffffff. Oracle: Instruction::assemble == words built from numeric values by the generator; parse_words/parse_bytes of header+prelude+words deliver an equal instruction; reference parser R1 accepts the same words. non-trivial = instruction with at least one operand or a result id; distinct = hash of the encoded words.",
             assumptions: vec![
                 "grammar facts (operand kinds, quantifiers, enumerant parameters) come from the golden snapshot of the pinned tree, cross-checked against hand-written specification anchors (golden/verify.py)".into(),
                 "ids are defined once; context-dependent literals are generated only for supported widths".into(),
